@@ -201,6 +201,11 @@ def rle_write_census(ctx, prog):
             elif w.kind == "handoff":
                 ok = w.callee.endswith(("compress_block_hash_with_rle", "update_rle_block"))
                 why = "&mut handed to %s" % w.callee
+            elif w.kind == "fill":
+                # `block.fill(TERMINATOR)` / `block[k..].fill(TERMINATOR)`: any range filled with the terminator is canonical storage
+                v = strip(w.src) if w.src is not None else ("unknown", "")
+                ok = v[0] == "const" and (v[2] or "").endswith("rle_encoding::TERMINATOR")
+                why = "fill(%s) over %s" % (show(v), w.rng)
             else:
                 why = "%s into %s" % (w.kind, w.field)
             ctx.ob(R, "%s: write to %s is TERMINATOR-fill, a like-field copy, or goes through the encoder" % (f.short, w.field), ok, why, f.loc(w.sp))
